@@ -282,12 +282,20 @@ package auth
 //@ func (*IAMCache) CreateAccount
 //@   requires {C17} [well-formed] c.iamcache != nil && c.iamcache.items != nil
 //@   at-call auth.icache.set {C17} [cache-key-outlives-the-request] requires ownedstr($1)
+// the change in the service and the change in the cache are one step: both run inside one critical section of the
+// cache's change lock (two changes of one account cannot interleave their halves)
+//@   at-call auth.IAMService.CreateAccount {C17} [the-service-is-changed-under-the-change-lock] requires ncalls("sync.Mutex.Lock") == 1 && ncalls("sync.Mutex.Unlock") == 0
+//@   at-call auth.icache.set {C17} [the-cache-is-changed-under-the-same-lock] requires ncalls("sync.Mutex.Lock") == 1 && ncalls("sync.Mutex.Unlock") == 0
 //@   ensures {C17} [cached-with-all-attributes] err == nil ==> in(account.Access, c.iamcache.items) && c.iamcache.items[account.Access].value == account
 //@ func (*IAMCache) DeleteUserAccount
 //@   requires {C17} [well-formed] c.iamcache != nil && c.iamcache.items != nil
+//@   at-call auth.IAMService.DeleteUserAccount {C17} [the-service-is-changed-under-the-change-lock] requires ncalls("sync.Mutex.Lock") == 1 && ncalls("sync.Mutex.Unlock") == 0
+//@   at-call auth.icache.Delete {C17} [the-cache-is-changed-under-the-same-lock] requires ncalls("sync.Mutex.Lock") == 1 && ncalls("sync.Mutex.Unlock") == 0
 //@   ensures {C17} [deleted-account-not-cached] err == nil ==> !in(access, c.iamcache.items)
 //@ func (*IAMCache) UpdateUserAccount
 //@   requires {C17} [well-formed] c.iamcache != nil && c.iamcache.items != nil
+//@   at-call auth.IAMService.UpdateUserAccount {C17} [the-service-is-changed-under-the-change-lock] requires ncalls("sync.Mutex.Lock") == 1 && ncalls("sync.Mutex.Unlock") == 0
+//@   at-call auth.icache.update {C17} [the-cache-is-changed-under-the-same-lock] requires ncalls("sync.Mutex.Lock") == 1 && ncalls("sync.Mutex.Unlock") == 0
 //@   ensures {C17} [cached-entry-follows-the-update] err == nil && old(in(access, c.iamcache.items)) ==> in(access, c.iamcache.items) \
 //@        && c.iamcache.items[access].value.Secret == ite(props.Secret != nil, old(*props.Secret), old(c.iamcache.items[access].value.Secret)) \
 //@        && c.iamcache.items[access].value.UserID == ite(props.UserID != nil, old(*props.UserID), old(c.iamcache.items[access].value.UserID)) \
@@ -308,6 +316,12 @@ package auth
 //@ func (*IAMServiceInternal) storeIAM
 //@   at-call os.WriteFile {C17} [only-what-was-read-is-written-in-place] requires called("os.ReadFile") && ((!called("dynamic") && samearray($1, result("os.ReadFile", 0))) || samearray($1, datacopy))
 //@   at-call builtin.copy {C17} [the-copy-is-of-what-was-read] requires samearray($0, datacopy) && samearray($1, result("os.ReadFile", 0)) && len($0) == len($1)
+
+// the temporary file the new account file is written to is closed before it is moved into place (a descriptor per
+// change would otherwise stay open until the process runs out of them)
+//@ func (*IAMServiceInternal) writeTempFile
+//@   at-return {C17,C20} [the-temporary-file-is-closed] when called("os.CreateTemp") && result("os.CreateTemp", 1) == nil :: ensures called("os.File.Close")
+//@   at-call os.Rename {C17} [closed-before-it-is-moved-into-place] requires called("os.File.Close") && result("os.File.Close", 0) == nil
 
 // ---- C10: a lock configuration that is accepted from a client is an enabled one ----------------------------
 // (a stored configuration that is not enabled switches off every retention and legal hold check of the bucket)
